@@ -4,7 +4,7 @@
 (* workbook generated through the public API and saved once, or a file     *)
 (* built from a TLC behaviour of MC_Resave) driven through the protocol of *)
 (* harness/src/bin/resave.rs:                                              *)
-(*   Load, Resave A 1, SaveTwice, Resave A 2.., [Edit, Resave B 1..]       *)
+(*   Load, Resave A 1, SaveTwice, Resave A 2.., {Edit, Resave B 1..}*      *)
 (* Every event carries "obs" = the projection of the loaded workbook       *)
 (* through public getters (the content of Resave.tla, PART 1) and "file" = *)
 (* the independent decoder's view of the bytes (pydec/resave_view.py).     *)
@@ -106,11 +106,20 @@ OnFirst(e) ==
           IN /\ st' = next(D)
              /\ Mismatch(l, <<"impl", "OrigSim", Diff(NormWb(o, D), got)>>)
 
+(* C04-KF4: a shared formula keeps its text only on its master cell; when that cell is overwritten, the  *)
+(*          other cells of the group are still written as <f t="shared" si=".."/> and reload without formula. *)
+Orphaned(W, s, orphans) ==
+  LET hit(x) == \E i \in DOMAIN orphans : orphans[i].r = x.r /\ orphans[i].c = x.c
+      cs == W.sheets[s].cells
+  IN Norm([W EXCEPT !.sheets[s].cells = [i \in DOMAIN cs |-> IF hit(cs[i]) THEN [cs[i] EXCEPT !.f = ""] ELSE cs[i]]])
 OnEdited(e) ==
   LET got  == Norm(e.obs)
       want == EditExpected(st.base[1], st.ed[1].s, st.ed[1].cell, st.dd)
   IN /\ st' = [st EXCEPT !.gen = 1, !.cur = <<got>>, !.curFile = <<e.file>>]
-     /\ IF got = want THEN TRUE ELSE Mismatch(l, <<"impl", "EditLocal", Diff(want, got)>>)
+     /\ IF got = want THEN TRUE
+        ELSE IF KFOn("C04-KF4") /\ st.ed[1].orphans # <<>> /\ got = Orphaned(want, st.ed[1].s, st.ed[1].orphans)
+        THEN KFHit("C04-KF4", l)
+        ELSE Mismatch(l, <<"impl", "EditLocal", Diff(want, got)>>)
 
 OnLater(e) ==
   LET got == Norm(e.obs) IN
@@ -145,7 +154,7 @@ OnEdit(e) ==
   ELSE IF e.outcome # "ok" THEN st' = Dead /\ Mismatch(l, <<"impl", "Edit", e.outcome>>)
   ELSE IF ~(e.s \in DOMAIN st.base[1].sheets /\ e.cell.r = e.r /\ e.cell.c = e.c /\ e.r >= 1 /\ e.c >= 1)
   THEN st' = Dead /\ Mismatch(l, <<"gen", "edit outside the workbook", e.s, e.r, e.c>>)
-  ELSE st' = [st EXCEPT !.mode = "B", !.gen = 0, !.ed = <<[s |-> e.s, cell |-> e.cell]>>]
+  ELSE st' = [st EXCEPT !.mode = "B", !.gen = 0, !.ed = <<[s |-> e.s, cell |-> e.cell, orphans |-> e.orphans]>>]
 
 Step(e) ==
   CASE e.a = "Load"      -> OnLoad(e)
